@@ -107,6 +107,7 @@ def spec_space(tier):
     for name, lst in (("comma", dx.COMMA_FORMS), ("hash", dx.TRAILING_HASH), ("twomulti", dx.TWO_MULTI), ("ellipsis", dx.ELLIPSIS_MOD)):
         fam += [(name, s) for s in lst]
     fam += [("totality", s) for s in dx.TOTALITY_ONLY]
+    fam += [("state", s) for s in state_deep_specs(tier)]  # the few that no other family contains
     seen, out = set(), []
     for f, s in fam:
         if s not in seen:
@@ -132,7 +133,7 @@ def state_deep_specs(tier):
             out += dx.whitespace_variants(list(toks))
     out += dx.whitespace_variants([])
     out += dx.name_docs() + dx.COMMA_FORMS + dx.TRAILING_HASH + dx.TWO_MULTI + dx.ELLIPSIS_MOD
-    return set(out)
+    return out
 
 
 def envstart_specs():
@@ -384,17 +385,17 @@ def eval_spec(env: Env, spec: str, totality_only: bool = False):
     return st, probs, info
 
 
-def _first_diff(env, a, b):
+def _first_diff(env, a, b, base_label):
     """first differing component of two vector dicts (over the keys of `a`) or None"""
     for cname in a:
         if cname in b and a[cname] != b[cname]:
             items = env.tree_shapes if cname.startswith("tree:") else env.shapes
             i = next(i for i, (x, y) in enumerate(zip(a[cname], b[cname])) if x != y)
-            return f"context {cname}, value {items[i]}: verdict {a[cname][i]!r}, but {b[cname][i]!r} for the annotation built while every switch was off"
+            return f"context {cname}, value {items[i]}: verdict {a[cname][i]!r}, but {b[cname][i]!r} {base_label}"
     return None
 
 
-def judge_state(env, st, soft, totality_only, base, base_vecs, tp, outs, deep):
+def judge_state(env, st, soft, totality_only, base, base_vecs, tp, outs, deep, base_label="when built while every switch was off"):
     """Compare the builds `outs` = [(label, kind, value)] made in other process states with
     the build `base` = (kind, value) made while every switch was off.
     -> [(problem-kind, text)], at most one of each kind.  Where the statement leaves the
@@ -409,7 +410,7 @@ def judge_state(env, st, soft, totality_only, base, base_vecs, tp, outs, deep):
         if strict and kind != bkind:
             shown = "an annotation" if kind == "ann" else f"{kind}({val!r})"
             bshown = "an annotation" if bkind == "ann" else f"{bkind}({base[1]!r})"
-            probs.append(("state-outcome", f"{label}: building gives {shown}, but {bshown} when built while every switch was off"))
+            probs.append(("state-outcome", f"{label}: building gives {shown}, but {bshown} {base_label}"))
             break
     if deep and bkind == "ann" and st == "ok" and not totality_only:
         if base_vecs is None:
@@ -417,7 +418,7 @@ def judge_state(env, st, soft, totality_only, base, base_vecs, tp, outs, deep):
         for label, kind, val in outs:
             if kind != "ann":
                 continue
-            d = _first_diff(env, env.compact(val, tp), base_vecs)
+            d = _first_diff(env, env.compact(val, tp), base_vecs, base_label)
             if d:
                 probs.append(("state-meaning", f"{label}: {d}"))
                 break
@@ -426,24 +427,26 @@ def judge_state(env, st, soft, totality_only, base, base_vecs, tp, outs, deep):
 
 def eval_state(env: Env, spec: str, st, soft, totality_only, info, deep, switches=SWITCHES):
     """The process-state dimension for one spec.  For every config switch: build the spec
-    while the switch is on -- on the (array type, category) combination that was already
-    used while it was off (Float[Duck]) and on a never-used one -- and again after the
-    switch is off -- on both of those and on yet another never-used combination.  All
-    five must have the outcome of the baseline build; annotations are probed (only with
-    every switch off again) against the baseline's acceptance vectors when `deep`.
+    on a never-used (array type, category) combination U while every switch is off; while
+    the switch is on, on U and on a never-used combination A; after the switch is off
+    again, on U, on A and on yet another never-used combination.  All six must have the
+    outcome of the baseline build (Float[Duck, spec], made before any switch was touched
+    for this spec); annotations are probed (only with every switch off again) against
+    the baseline's acceptance vectors when `deep`.
     -> [(problem-kind, switch-short-name, text)]"""
     base = info["_base"]
     out = []
     for short, item in switches:
-        cat_a, cat_b = env.fresh_cat(), env.fresh_cat()
-        outs = []
+        # every scenario is self-contained (own combinations), so that it can be replayed alone
+        cat_u, cat_a, cat_b = env.fresh_cat(), env.fresh_cat(), env.fresh_cat()
+        outs = [("every switch off, fresh combination", *env.build(spec, cat_u))]
         with env.switch(item, True):
-            outs.append((f"{item} on, combination used before", *env.build(spec)))
+            outs.append((f"{item} on, combination used while off", *env.build(spec, cat_u)))
             outs.append((f"{item} on, fresh combination", *env.build(spec, cat_a)))
-        outs.append((f"{item} on then off, combination used before and while on", *env.build(spec)))
+        outs.append((f"{item} on then off, combination used while off and while on", *env.build(spec, cat_u)))
         outs.append((f"{item} on then off, combination first used while on", *env.build(spec, cat_a)))
         outs.append((f"{item} on then off, fresh combination", *env.build(spec, cat_b)))
-        env.state_builds += 5
+        env.state_builds += len(outs)
         for kind, text in judge_state(env, st, soft, totality_only, base, info.get("_vecs"), info["_tp"], outs, deep):
             out.append((kind, short, text))
     return out
@@ -583,7 +586,7 @@ def _envstart_child(item, specs):
         for kind, text in probs:
             problems.append((f"envstart-{kind}", spec, f"(after {item} was switched off; first built while it was on) {text}"))
         outs = [(f"{ENVVAR[item]}=1 at interpreter start, built while on", *on[spec]), (f"{ENVVAR[item]}=1 at interpreter start then off, fresh combination", *env.build(spec, env.fresh_cat()))]
-        for kind, text in judge_state(env, st, info["_soft"], tot, info["_base"], info.get("_vecs"), info["_tp"], outs, True):
+        for kind, text in judge_state(env, st, info["_soft"], tot, info["_base"], info.get("_vecs"), info["_tp"], outs, True, "when rebuilt after the switch was off (same combination as while on)"):
             problems.append((f"envstart-{kind[len('state-'):]}", spec, text))
     counts["builds"] += env.builds
     counts["checks"] = env.prober.checks
@@ -626,7 +629,7 @@ ENVSTART_CHUNKS = 4
 
 def run(ctx):
     space, sizes = spec_space(ctx.tier)
-    deep = state_deep_specs(ctx.tier)
+    deep = set(state_deep_specs(ctx.tier))
     # specs whose probing is expensive ('?' specs go through PyTree checks) are
     # spread evenly: round-robin over the fixed order does that.
     n_sh = common.NCPU * 6
@@ -663,7 +666,7 @@ def run(ctx):
             viols.append(Violation(key=f"C14:{kind}:{name}", what=f"Float[Duck, <{name}>]: {text}", replay=dict(kind=kind, name=name)))
     samples.append(dict(family="nonstring", spec="b'a'", outcome="ValueError" if not eval_special(env, "nonstring", "bytes") else "violation"))
     samples.append(dict(family="comma", spec="a,b", outcome=env.build("a,b")[0]))
-    samples.append(dict(family="state", spec="#*in", switch="jaxtyping_disable", outcome="same outcome and acceptance vectors in all 5 rebuilds" if not eval_state(env, "#*in", "ok", False, False, eval_spec(env, "#*in")[2], True, SWITCHES[:1]) else "violation"))
+    samples.append(dict(family="state", spec="#*in", switch="jaxtyping_disable", outcome="same outcome and acceptance vectors in all 6 rebuilds" if not eval_state(env, "#*in", "ok", False, False, eval_spec(env, "#*in")[2], True, SWITCHES[:1]) else "violation"))
 
     viols.sort(key=lambda v: (len(v.key), v.key))
     cov = dict(
@@ -718,7 +721,7 @@ def run(ctx):
         + "; pairs of name tokens ("
         + ("6 names x 4" if ctx.quick else "12 names x 5")
         + " modifier choices); every name as `name=` prefix of 6 tokens; "
-        + "process state: EVERY spec of the space rebuilt 5 times per config switch (switch on: used + fresh combination; on then off: used, first-used-while-on, fresh) "
+        + "process state: EVERY spec of the space rebuilt 6 times per config switch (off: fresh combination U; switch on: U + fresh A; on then off: U, A, fresh B) "
         + "and compared with the switch-off build by outcome, and by acceptance vectors (contexts none, K1, tree:empty) on the sub-space state_deep_space; "
         + f"interpreter started with the switch in the environment: {len(es)} specs per switch, judged completely after switching off",
     )
